@@ -98,7 +98,10 @@ def run(R):
                 'only non-bytes given to a bytes-mode object are converted', witness='converted under %s' % sorted(got or []), kind='path', tag='guard')
         f = repo.func('spawnbase:SpawnBase.read')
         ks = [k for k in calls_in(f.node) if dotted(k.func) == 're.compile']
-        ok = len(ks) == 1 and len(ks[0].args) == 2 and norm(ks[0].args[1]) == 're.DOTALL' and isinstance(ks[0].args[0], ast.Call) and callee_last(ks[0].args[0]) == '_coerce_expect_string'
+        a0 = ks[0].args[0] if len(ks) == 1 and ks[0].args else None
+        if isinstance(a0, ast.Name):
+            a0 = aliases_of(f).single_assign.get(a0.id, a0)          # the pattern may be built in a local first
+        ok = len(ks) == 1 and len(ks[0].args) == 2 and norm(ks[0].args[1]) == 're.DOTALL' and isinstance(a0, ast.Call) and callee_last(a0) == '_coerce_expect_string'
         c.check(ok, f, ks[0] if ks else None, 'read(n) compiles its .{n} pattern with DOTALL (newlines count as characters), coerced to the object\'s string type', witness=norm(ks[0]) if ks else '', kind='ast', tag='read-dotall')
 
 
@@ -145,6 +148,76 @@ def classify_test(t, pv):
     return classify_atom(a, pv) if v else None
 
 
+class _Stop(Exception):
+    pass
+
+
+def run_dispatch(f, body, pv, res, kind):
+    """abstract runs of the loop body for an element of the given kind -> [{'appends': [expr], 'err': bool}] (one per path)"""
+    def subst(e, env):
+        class T(ast.NodeTransformer):
+            def visit_Name(self, n):
+                if isinstance(n.ctx, ast.Load) and n.id in env:
+                    return env[n.id]
+                return n
+        import copy as _copy
+        return T().visit(_copy.deepcopy(e))
+
+    def ev(t):
+        """True / False / None (unknown)"""
+        if isinstance(t, ast.UnaryOp) and isinstance(t.op, ast.Not):
+            r = ev(t.operand)
+            return None if r is None else not r
+        if isinstance(t, ast.BoolOp):
+            rs = [ev(v) for v in t.values]
+            if isinstance(t.op, ast.And):
+                if any(r is False for r in rs):
+                    return False
+                return True if all(r is True for r in rs) else None
+            if any(r is True for r in rs):
+                return True
+            return False if all(r is False for r in rs) else None
+        a, v = atom_key(t)
+        k = classify_atom(a, pv)
+        if k is None:
+            return None
+        return (k == kind) == v
+
+    def run(stmts, env, acc, out):
+        """acc: {'appends': [...], 'err': bool}; appends finished paths to out; returns list of (env, acc) continuing after stmts"""
+        states = [(env, acc)]
+        for s in stmts:
+            nxt = []
+            for env_, acc_ in states:
+                if isinstance(s, ast.Assign) and len(s.targets) == 1 and isinstance(s.targets[0], ast.Name):
+                    e2 = dict(env_)
+                    e2[s.targets[0].id] = subst(s.value, env_)
+                    nxt.append((e2, acc_))
+                elif isinstance(s, ast.Expr) and isinstance(s.value, ast.Call) and callee_last(s.value) == 'append' and is_name(s.value.func.value, res):
+                    a2 = {'appends': acc_['appends'] + [subst(s.value.args[0], env_)], 'err': acc_['err']}
+                    nxt.append((env_, a2))
+                elif isinstance(s, ast.Expr) and isinstance(s.value, ast.Call) and callee_last(s.value) == '_pattern_type_err':
+                    out.append({'appends': acc_['appends'], 'err': True})        # never returns
+                elif isinstance(s, ast.If):
+                    r = ev(subst(s.test, dict((k_, v_) for k_, v_ in env_.items() if k_ != pv)))
+                    for branch, take in ((s.body, r is not False), (s.orelse, r is not True)):
+                        if take:
+                            nxt.extend(run(branch, env_, acc_, out))
+                elif isinstance(s, (ast.Continue, ast.Break)):
+                    out.append(acc_)
+                elif isinstance(s, ast.Pass) or (isinstance(s, ast.Expr) and isinstance(s.value, ast.Constant)) or \
+                        (isinstance(s, (ast.Assign, ast.AugAssign)) and not any(isinstance(t_, ast.Name) for t_ in assigned_targets(s))):
+                    nxt.append((env_, acc_))        # stores into attributes / containers: what is appended is judged by what is appended
+                else:
+                    raise AnalysisError('compile_pattern_list: statement in the dispatch loop not understood: %s' % norm(s)[:80])
+            states = nxt
+        return states
+    out = []
+    for env_, acc_ in run(body, {}, {'appends': [], 'err': False}, out):
+        out.append(acc_)
+    return out
+
+
 def check_cpl(c, repo):
     f = repo.func('spawnbase:SpawnBase.compile_pattern_list')
     g = f.cfg
@@ -161,45 +234,40 @@ def check_cpl(c, repo):
     loop = loops[0]
     tgt = loop.target
     pv = tgt.elts[1].id if isinstance(tgt, ast.Tuple) else tgt.id
-    # the if/elif chain
-    chain = []
-    node = [s for s in loop.body if isinstance(s, ast.If)]
-    c.need(len(node) == 1, 'dispatch chain not found')
-    cur = node[0]
-    while True:
-        chain.append(cur)
-        if len(cur.orelse) == 1 and isinstance(cur.orelse[0], ast.If):
-            cur = cur.orelse[0]
-        else:
-            break
-    kinds = [classify_test(x.test, pv) for x in chain]
-    c.check(None not in kinds and set(kinds) == {'TEXT', 'EOF', 'TIMEOUT', 'REGEX'}, f, chain[0], 'the chain recognises text, EOF, TIMEOUT and compiled regex',
-            witness=str([norm(x.test) for x in chain]), kind='ast', tag='kinds')
-    last = chain[-1]
-    ok = len(last.orelse) == 1 and isinstance(last.orelse[0], ast.Expr) and isinstance(last.orelse[0].value, ast.Call) and \
-        callee_last(last.orelse[0].value) == '_pattern_type_err' and is_name(last.orelse[0].value.args[0], pv)
+    # what the loop body does with an element of each kind, found by running the body abstractly for p = text / EOF / TIMEOUT /
+    # compiled regex / anything else (tests that classify p are decided by the scenario, other tests are explored both ways)
     nr = '_pattern_type_err' in repo.noreturn_names()
-    c.check(ok and nr, f, last, 'anything else ends in the TypeError helper, which never returns', witness=norm(last.orelse[0]) if last.orelse else 'no else branch', kind='ast', tag='else-raises')
-    for x, k in zip(chain, kinds):
-        body_calls = [callee_last(kk) for s in x.body for kk in calls_in(s)]
-        apps = [kk for s in x.body for kk in calls_in(s) if callee_last(kk) == 'append']
-        if k == 'TEXT':
-            ok = '_coerce_expect_string' in body_calls and any(dotted(kk.func) == 're.compile' for s in x.body for kk in calls_in(s)) and len(apps) == 1
-            c.check(ok, f, x, 'text: coerced to the object\'s string type, compiled, appended', witness=str(body_calls), kind='ast', tag='text-branch')
-            if apps:
-                a0 = apps[0].args[0] if apps[0].args else None
-                fresh = isinstance(a0, ast.Call) and dotted(a0.func) == 're.compile'
-                if isinstance(a0, ast.Name):
-                    ds = [s2 for s2 in ast.walk(x) if isinstance(s2, ast.Assign) and a0.id in assigned_names(s2)]
-                    fresh = len(ds) == 1 and isinstance(ds[0].value, ast.Call) and dotted(ds[0].value.func) == 're.compile'
-                c.check(fresh, f, apps[0], 'what is appended is the regex compiled in THIS call with the flags computed in this call (a regex kept from an '
-                        'earlier call has the ignorecase setting of that time)', witness=norm(apps[0]), kind='flow', tag='text-compiled-now')
-        elif k in ('EOF', 'TIMEOUT'):
-            ok = len(apps) == 1 and is_name(apps[0].args[0], k)
-            c.check(ok, f, x, '%s is kept as the marker itself' % k, witness=str([norm(a) for a in apps]), kind='ast', tag='marker-branch:' + k)
-        elif k == 'REGEX':
-            ok = '_coerce_expect_re' in body_calls and len(apps) == 1 and is_name(apps[0].args[0], pv)
-            c.check(ok, f, x, 'compiled regex: type-coerced (flags kept, D3) and appended as is', witness=str(body_calls), kind='ast', tag='regex-branch')
+    c.check(nr, f, None, 'the TypeError helper never returns', kind='ast', tag='helper-noreturn')
+    lst = [n.targets[0].id for n in iter_nodes(f.node) if isinstance(n, ast.Assign) and isinstance(n.targets[0], ast.Name) and isinstance(n.value, ast.List) and not n.value.elts]
+    rets = [r for r in returns(f) if isinstance(r.ast.value, ast.Name) and r.ast.value.id in lst]
+    c.need(len(rets) == 1, 'compile_pattern_list: result list not found')
+    res = rets[0].ast.value.id
+    want = {'TEXT': 'text: coerced to the object\'s string type, compiled in this call with the computed flags, appended',
+            'EOF': 'EOF is kept as the marker itself', 'TIMEOUT': 'TIMEOUT is kept as the marker itself',
+            'REGEX': 'compiled regex: type-coerced (flags kept, D3) and appended',
+            'OTHER': 'anything else ends in the TypeError helper, which never returns'}
+    for kind in ('TEXT', 'EOF', 'TIMEOUT', 'REGEX', 'OTHER'):
+        paths = run_dispatch(f, loop.body, pv, res, kind)
+        ok = bool(paths)
+        wit = []
+        for p_ in paths:
+            vals = [norm(v) for v in p_['appends']]
+            wit.append('%s%s' % (vals, ' then TypeError helper' if p_['err'] else ''))
+            if kind == 'OTHER':
+                ok = ok and p_['err'] and not p_['appends']
+                continue
+            ok = ok and not p_['err'] and len(p_['appends']) == 1
+            if not ok:
+                continue
+            v = p_['appends'][0]
+            if kind == 'TEXT':
+                ok = isinstance(v, ast.Call) and dotted(v.func) == 're.compile' and len(v.args) == 2 and isinstance(v.args[1], ast.Name) \
+                    and norm(v.args[0]) == 'self._coerce_expect_string(%s)' % pv
+            elif kind in ('EOF', 'TIMEOUT'):
+                ok = norm(v) in (pv, kind)
+            else:
+                ok = norm(v) == 'self._coerce_expect_re(%s)' % pv
+        c.check(ok, f, loop, want[kind], witness='%s -> %s' % (kind, wit), kind='alg', tag='dispatch:' + kind)
     er = repo.func('spawnbase:SpawnBase._pattern_type_err')
     rs = raises(er)
     c.check(len(rs) == 1 and raised_class(rs[0].ast, er) == 'TypeError', er, rs[0].ast if rs else None, 'the helper raises TypeError', kind='ast', tag='typeerror')
